@@ -72,3 +72,7 @@ CORPUS += [
         more=[dict(scope='', old="            self.alpha * math.log(self.beta)\n", new="            self.alpha * torch.log(self.beta)\n", mode='text')],
         expect=[('C20.S', 'evolution.coalescent::ConstantCoalescentIntegrated.__init__::self.alpha')]),
 ]
+CORPUS += [
+    Mut('c20-precision-matrix-in-a-reused-buffer', GM, '', "        return precision_matrix\n", "        if getattr(self, '_pm', None) is None or self._pm.shape != precision_matrix.shape:\n            self._pm = precision_matrix\n        out = self._pm\n        out[...] = precision_matrix\n        return out\n",
+        mode='text', expect=[('C20.Q', 'published::distributions.gmrf::GMRF.precision_matrix::out::returned-values-are-not-overwritten-later')]),
+]
